@@ -110,6 +110,7 @@ func init() {
 		Rule: "G-exact: random target over concrete types in every form; one supplied value with exactly each parameter's key; near-miss distractor inputs; 0-6 distractor converters " +
 			"(general, same-named chains a:T'->a:T with a:T'/y supplied, providers of the exact label, converters from other inputs, bidirectional pairs; some failing, some run-once); options shuffled; R repetitions. " +
 			"Oracle: success, zero converter events, each named parameter received the id supplied under its own key, each type-only parameter an id supplied as input with exactly its type. " +
+			"half of the successful repetitions call the SAME Func again with fresh values; one case in four supplies the zero value of a type as an exact input; one in four passes the type-only inputs through ONE Typed(nil, a, nil, b) option; " +
 			"non-trivial = at least one distractor converter whose output is MAY-compatible with some parameter",
 		Assumptions: []string{"interface-typed parameters are excluded (no supplied value can have exactly an interface type)", "6 concrete types, names {a,b,c,d}, subtypes {x,y,z}"},
 		Run: func(c *CaseCtx) CaseResult {
@@ -197,7 +198,7 @@ func init() {
 		Cases: func(t string) int { return tierN(t, 10000, 200000) },
 		Rule: "constructive chains/DAGs (depth 1-6, multi-input, struct/pointer/built/positional results, run-once) with each converter independently failing (p=0.3) and the target failing (p=0.15); " +
 			"oracle: Err() is identical (==) to the first failing body's error value, that event is the last of the call, the target did not run; no error => nothing failed; target error => Err() is it and Len() = non-error arity; " +
-			"a second call on the same objects re-checks run-once failures (cached error returned verbatim, body not re-run). non-trivial = a failing converter actually executed",
+			"a second call on the same objects re-checks run-once failures (cached error returned verbatim, body not re-run); in one case in five the failing bodies return an error VALUE of type *ErrArgumentUnsatisfied (taken from an inner unsatisfiable call), which must come back verbatim all the same. non-trivial = a failing converter actually executed",
 		Assumptions: []string{"error identity is compared with == on the interface value (pointer identity of the generated error)"},
 		Run: func(c *CaseCtx) CaseResult {
 			var res CaseResult
